@@ -87,6 +87,9 @@ func (g *gen) themedDecl(theme string, pl *pools, modern float64) Decl {
 			if d, ok := wide(fam); ok {
 				return d
 			}
+			if g.chance(0.08) {
+				return g.decl(fam, []string{"varx"}, 0, imp)
+			}
 			n := 1 + g.rng.Intn(4)
 			vals := make([]string, n)
 			for i := range vals {
@@ -97,6 +100,9 @@ func (g *gen) themedDecl(theme string, pl *pools, modern float64) Decl {
 		p := g.pick(sides)
 		if d, ok := wide(p); ok {
 			return d
+		}
+		if g.chance(0.05) {
+			return g.decl(p, []string{"varx"}, 0, imp)
 		}
 		return g.decl(p, []string{g.pick(pl.lens)}, modern, imp)
 	case "radius":
@@ -431,6 +437,29 @@ func witnesses() []genInput {
 			{K: "rule", Path: []PathEl{selEl("p,#s"), selEl(".a")}, Decls: color("red")},
 			{K: "rule", Path: []PathEl{selEl("#s")}, Decls: color("blue")}}},
 	}
+	// regression sheets of the defects this check found and that were fixed in /repo
+	one := func(p string, imp bool, vals ...string) Decl {
+		sp := make([]int, len(vals))
+		for i := range sp {
+			sp[i] = 1
+		}
+		return Decl{P: p, V: vals, Sp: sp, I: imp}
+	}
+	w = append(w,
+		// `&` inside a pseudo-class under a parent with a combinator (6bb4c85)
+		genInput{ID: "regress-0", Items: []Item{
+			{K: "rule", Path: []PathEl{selEl("div>p"), selEl(":not(&) .c")}, Decls: color("red")},
+			{K: "rule", Path: []PathEl{selEl(".b>.a"), selEl(":is(&,.b)>span")}, Decls: color("blue")}}},
+		// an inset that cannot be lowered must not delete the sides before it (c8e39a6)
+		genInput{ID: "regress-1", Items: []Item{
+			{K: "rule", Path: []PathEl{selEl(".a")}, Decls: []Decl{one("top", false, "l1"), one("left", false, "l2"), one("inset", false, "varx")}}}},
+		// every inset of a sheet is lowered, or none (c8e39a6)
+		genInput{ID: "regress-2", Items: []Item{
+			{K: "rule", Path: []PathEl{selEl("p")}, Decls: []Decl{one("inset", true, "l1", "auto")}},
+			{K: "rule", Path: []PathEl{selEl("p")}, Decls: []Decl{one("inset", false, "l2")}},
+			{K: "rule", Path: []PathEl{selEl(".b")}, Decls: []Decl{one("inset", false, "inherit")}},
+			{K: "rule", Path: []PathEl{selEl(".b")}, Decls: []Decl{one("top", false, "l0"), one("inset", false, "mix", "l1")}}}},
+	)
 	for i := range w {
 		for k := range w[i].Items {
 			w[i].Items[k].fix()
